@@ -124,3 +124,20 @@ def p_atoms(p):
     for m in p:
         s.update(m)
     return s
+
+
+def new_value(fn, s, subst=False):
+    """polynomial of the value a store (an entry of paths.stores) leaves in its
+    target, whatever the spelling: x = e, x += e, x -= e, x++, x--"""
+    if s["op"] == "=":
+        return poly(fn, s["rhs"], subst=subst)
+    old = poly(fn, s["lhs"], subst=False)
+    if s["op"] == "++":
+        return p_add(old, p_const(1))
+    if s["op"] == "--":
+        return p_add(old, p_const(1), -1)
+    if s["op"] == "+=":
+        return p_add(old, poly(fn, s["rhs"], subst=subst))
+    if s["op"] == "-=":
+        return p_add(old, poly(fn, s["rhs"], subst=subst), -1)
+    return None
